@@ -18,3 +18,6 @@ open IrVerif.SymExpr
 #print axioms IrVerif.SymExpr.C16_parser_total
 #print axioms IrVerif.SymExpr.C16_tokenize_classes
 #print axioms IrVerif.SymExpr.C16_print_parse_sympy_partial
+#print axioms IrVerif.SymExpr.C16_print_parse_sympy
+#print axioms IrVerif.SymExpr.C16_overload_dispatch_bool
+#print axioms IrVerif.SymExpr.C16_print_parse_sympy_symexp
